@@ -18,6 +18,7 @@
 #include <memory>
 #include <functional>
 
+#include <sys/mman.h>
 #include <igris/datastruct/sline.h>
 #include <igris/defs/vt100.h>
 #include <igris/shell/vterm.h>
@@ -35,8 +36,23 @@ namespace c15
     {
         hv::exact_buf b;
         struct sline s;
-        // (a 0-byte buffer is placed at the very end of a 1-byte allocation: any store through it is seen)
-        sline_c(unsigned cap) : b((size_t)cap, cap ? 0 : 1) { sline_init(&s, (char *)b.p, cap); }
+        // (a 0-byte buffer is placed at the very end of a 1-byte allocation: any store through it is seen;
+        //  a buffer of 2^24 bytes and more is mapped lazily: only the pages the line touches exist)
+        void *big = 0;
+        size_t bigsz = 0;
+        sline_c(unsigned cap) : b(cap > (1u << 24) ? 1 : (size_t)cap, cap ? 0 : 1)
+        {
+            if (cap > (1u << 24))
+            {
+                bigsz = cap;
+                big = mmap(0, bigsz, PROT_READ | PROT_WRITE, MAP_PRIVATE | MAP_ANONYMOUS | MAP_NORESERVE, -1, 0);
+                if (big == MAP_FAILED) abort();
+                sline_init(&s, (char *)big, cap);
+            }
+            else
+                sline_init(&s, (char *)b.p, cap);
+        }
+        ~sline_c() { if (big) munmap(big, bigsz); }
         int putchar(uint8_t c) override { return sline_putchar(&s, (char)c); }
         int newdata(const std::string &d, bool &has_ret) override
         {
@@ -812,6 +828,22 @@ static void run_sl(const std::vector<std::string> &w, out &o)
             ret = has ? std::to_string(r) : "v";
             break;
         }
+        case 'Z':
+        {
+            // Z<size>:<hex>  igris::sline::newdata(data, size) with the size_t as given (the data has at least
+            // as many bytes as can be inserted)
+            size_t colon = arg.find(':');
+            size_t sz = (size_t)strtoull(arg.substr(0, colon).c_str(), 0, 10);
+            auto d = hv::unhex(arg.substr(colon + 1));
+            std::string ds(d.begin(), d.end());
+            if (!s->newdata_sz(ds, sz)) { o.result = "bad-op"; return; }
+            size_t room = cap ? cap - 1 - (L.size() + R.size()) : 0;
+            size_t k = std::min(room, sz);
+            L += ds.substr(0, k);
+            o.tag(sz >= (1ull << 31) ? "newdata-size-ge-2^31" : "newdata-size_t");
+            ret = "v";
+            break;
+        }
         case 'c':
         {
             if (!s->clear()) { o.result = "bad-op"; return; }
@@ -928,6 +960,7 @@ static void run_sl(const std::vector<std::string> &w, out &o)
     }
     if (cap == 0) o.tag("capacity-zero");
     if (cap == 1) o.tag("capacity-one");
+    if (cap > (1u << 24)) o.tag(cap >= (1u << 31) ? "capacity-ge-2^31" : "capacity-large");
     o.result = res.empty() ? "-" : res;
 }
 
@@ -1685,6 +1718,17 @@ static void gen(hv::rng &r, const std::string &tier)
     gen_sl_exhaustive(0, 2, "x");
     gen_sl_exhaustive(1, 3, "c");
     gen_sl_exhaustive(1, 3, "x");
+    // ---- buffers of 2^31 - 1 .. 2^32 - 1 bytes (lazily mapped; the line stays short): every call but the bulk
+    //      insert, which misjudges the room there (finding C15-newdata-2g); the bulk insert just below 2^31
+    for (const char *cap : {"2147483647", "2147483648", "2147483649", "4294967295"})
+        emit(std::string("sl c ") + cap + " p61 p62 p63 l l p64 b1 d1 r g e6164 z p65 g");
+    emit("sl c 2147483647 p61 N2:6263 n6465 l N1:66 g");
+    emit("sl c 16777217 p61 N2:6263 n6465 l N1:66 N-1:67 g");
+    emit("sl x 4 Z2:616263 Z2147483647:61626364 g");
+    emit("sl x 6 p61 l Z1:6263 Z0:64 Z2147483647:6566676869 g");
+    emit("@F:C15-newdata-2g sl c 2147483649 N2:6162");
+    emit("@F:C15-newdata-2g sl c 2147483648 N1:62");
+    emit("@F:C15-newdata-2g sl x 4 Z2147483648:61626364");
     // ---- twins, directly against each other: struct sline / igris::sline on the same calls
     {
         static const std::vector<std::string> tk = {"p61", "p62", "n6364", "n65666768", "N1:6364", "N-1:63", "b1", "d1", "l", "r", "z", "g", "e61"};
